@@ -811,8 +811,14 @@ fn gen_tls(r: &mut Rng, thorough: bool) -> Vec<String> {
         let len = match r.below(6) {
             0 => 0,
             1 => r.range(1, 40),
-            2 => *r.pick(&[16383u64, 16384, 16385, 8192, 8193]),
-            3 => r.range(0, maxlen),
+            2 => *r.pick(&[16383u64, 16384, 16385, 8192, 8193, 32768, 32769]),
+            3 => {
+                if r.chance(1, 5) {
+                    r.range(0, maxlen)
+                } else {
+                    r.range(0, maxlen.min(70_000))
+                }
+            }
             _ => r.range(0, maxlen.min(5000)),
         }
         .min(maxlen);
@@ -827,7 +833,7 @@ fn gen_tls(r: &mut Rng, thorough: bool) -> Vec<String> {
 fn generate(tier: &str, rng: &mut Rng) -> Vec<Case> {
     let thorough = tier == "thorough";
     let mut cases = vec![];
-    let n_tls = if thorough { 6000 } else { 400 };
+    let n_tls = if thorough { 4000 } else { 400 };
     for i in 0..n_tls {
         cases.push(Case { name: format!("tls{i}"), lines: gen_tls(rng, thorough) });
     }
